@@ -3,6 +3,8 @@
 import sys, os, shutil, json, subprocess, re
 wt, x, prop, sid, caught = sys.argv[1:6]
 src = os.path.join(wt, 'out', x)
+if not os.path.isdir(src):
+    src = os.path.join(wt, 'out.done', x)
 dst = os.path.join('/verif/seeded', sid)
 os.makedirs(dst, exist_ok=True)
 # re-base the patch on the current /repo HEAD through the trial worktree
